@@ -312,7 +312,8 @@ def extra_checks(ctx):
             if sel:
                 sub = call(lambda: db(**{k_: (list(v) if isinstance(v, list) else v) for k_, v in sel.items()}))
                 if is_err(sub):
-                    oks, gotsub = all(not any(_holds(r, sel) for r in t) for t in tables), sub      # an empty structure cannot be built
+                    # a structure left with no atom cannot be represented as a table of the new database: the call raises as soon as ONE structure is empty
+                    oks, gotsub = any(not any(_holds(r, sel) for r in t) for t in tables), sub
                 else:
                     sn = sub._get_table_names()
                     gotsub = [[list(r)[:2] + [list(r)[7]] for r in sub.c.execute(f'select * from {n}').fetchall()] for n in sn]
